@@ -567,4 +567,216 @@ example : hitIID [(0, 1/2), (1/2, 1/4), (1, 1/4)]
      by intro p hp; simp at hp; rcases hp with rfl | rfl | rfl <;> norm_num⟩
     (by norm_num [lawMean, expL]) 5
 
+/-! ## Kaplan-Wald, independent draws -/
+
+/-- the event: the p-value `kaplan_wald` reports after the draws `h` is `≤ alpha` -/
+def reportedLastKW (cfg : Cfg) (alpha : ℚ) (h : List ℚ) : Bool := lastLe alpha (kaplanWald cfg h)
+
+/-- the Kaplan-Wald factor `(1−g) x/t + g` is the betting factor with the constant bet `(1−g)/t` -/
+theorem kw_factor_eq_bet (t g a : ℚ) (ht : t ≠ 0) : betQ t a ((1 - g) / t) = (1 - g) * a / t + g := by
+  unfold betQ
+  field_simp
+  ring
+
+/-- **link between the literal model and the defining product** (no probability here) -/
+theorem kw_reported_implies_value (cfg : Cfg) (ht : 0 < cfg.t) (hg0 : 0 ≤ cfg.kw.g.getD 0)
+    (hg1 : cfg.kw.g.getD 0 ≤ 1) (x : List ℚ) (hx : ∀ a ∈ x, 0 ≤ a)
+    (alpha : ℚ) (ha0 : 0 < alpha) (ha1 : alpha < 1) (hev : reportedLastKW cfg alpha x = true) :
+    1 / alpha ≤ Tq betQ none cfg.t (fun _ => (1 - cfg.kw.g.getD 0) / cfg.t) x := by
+  by_cases hne : x = []
+  · subst hne
+    unfold reportedLastKW at hev
+    rw [kw_err_empty cfg hg0 hg1] at hev
+    cases hev
+  · have hpos : 0 < x.length := List.length_pos_iff.mpr hne
+    have hj : x.length - 1 < x.length := by omega
+    obtain ⟨p, hist, he, hh⟩ := kw_def cfg x hx hg0 hg1 (ne_of_gt ht) (x.length - 1) hj
+    obtain ⟨p', hist', he', hl', _⟩ := wellformed_kw cfg x hne hx ht hg0 hg1
+    rw [he] at he'
+    injection he' with he'
+    injection he' with _ hhist
+    subst hhist
+    unfold reportedLastKW lastLe at hev
+    rw [he] at hev
+    simp only [List.getLast?_eq_getElem?, hl', hh, XR.le_fin, decide_eq_true_eq] at hev
+    have hlen : x.length - 1 + 1 = x.length := by omega
+    rw [hlen, kwT_eq] at hev
+    rw [Tq_eq_prodTo]
+    have hcongr : prodTo (fun i => betQ (mu none cfg.t (psum x i) (i + 1)) (Spec.obs x i)
+          ((1 - cfg.kw.g.getD 0) / cfg.t)) x.length =
+        prodTo (fun i => (1 - cfg.kw.g.getD 0) * Spec.obs x i / cfg.t + cfg.kw.g.getD 0) x.length :=
+      prodTo_congr (fun i _ => kw_factor_eq_bet cfg.t _ _ (ne_of_gt ht))
+    rw [hcongr]
+    refine pOfQ_le_alpha (prodTo_nonneg ?_) ha0 ha1 hev
+    intro i _
+    have h1 : 0 ≤ (1 - cfg.kw.g.getD 0) * Spec.obs x i := mul_nonneg (by linarith) (obs_nonneg hx i)
+    have h2 : 0 ≤ (1 - cfg.kw.g.getD 0) * Spec.obs x i / cfg.t := div_nonneg h1 ht.le
+    linarith
+
+/-- **C01, Kaplan-Wald, independent draws.**  For every finitely supported law `L` on `[0,u]` (any
+`u`) with mean at most `t`, `t > 0`, `0 ≤ g ≤ 1`, every horizon `n` and every `alpha` in `(0,1)`, the exact
+probability that the p-value reported by `kaplan_wald` after some number `≤ n` of independent draws
+from `L` is at most `alpha` is at most `alpha`. -/
+theorem C01_iid_kw (cfg : Cfg) (ht : 0 < cfg.t) (hg0 : 0 ≤ cfg.kw.g.getD 0) (hg1 : cfg.kw.g.getD 0 ≤ 1)
+    (alpha : ℚ) (ha0 : 0 < alpha) (ha1 : alpha < 1)
+    {u : ℚ} (L : List (ℚ × ℚ)) (hL : IsLaw u L) (hmean : lawMean L ≤ cfg.t) (n : Nat) :
+    hitIID L (reportedLastKW cfg alpha) n [] ≤ alpha := by
+  have hl0 : 0 ≤ (1 - cfg.kw.g.getD 0) / cfg.t := div_nonneg (by linarith) ht.le
+  have hl1 : (1 - cfg.kw.g.getD 0) / cfg.t * cfg.t ≤ 1 := by
+    rw [div_mul_cancel₀ _ (ne_of_gt ht)]; linarith
+  have h := process_ville_iid betQ u cfg.t (fun _ => (1 - cfg.kw.g.getD 0) / cfg.t) L hL
+    (fun _ a' _ ha0' _ => betQ_nonneg _ _ _ ht ha0' hl0 hl1)
+    (fun _ _ => betQ_super_iid cfg.t _ hl0 L hL hmean)
+    (reportedLastKW cfg alpha) (1 / alpha) (by positivity)
+    (fun h hr hev => kw_reported_implies_value cfg ht hg0 hg1 h (fun a ha => (hr a ha).1) alpha ha0 ha1 hev) n
+  simpa using h
+
+-- non-vacuity: t = 1/2, g = 1/10, the law {0: 1/2, 1/2: 1/4, 1: 1/4} (mean 3/8), 5 draws
+example : hitIID [(0, 1/2), (1/2, 1/4), (1, 1/4)]
+    (reportedLastKW { N := none, u := 1, t := 1/2, randomOrder := true, kw := { g := some (1/10) } } (1/20))
+    5 [] ≤ 1/20 :=
+  C01_iid_kw _ (by norm_num) (by simp) (by simp; norm_num) (1/20) (by norm_num) (by norm_num) (u := 1) _
+    ⟨by intro p hp; simp at hp; rcases hp with rfl | rfl | rfl <;> norm_num,
+     by norm_num,
+     by intro p hp; simp at hp; rcases hp with rfl | rfl | rfl <;> norm_num⟩
+    (by norm_num [lawMean, expL]) 5
+
+/-! ## Kaplan-Markov, independent draws -/
+
+/-- the event: the p-value `kaplan_markov` reports after the draws `h` is `≤ alpha` -/
+def reportedLastKM (cfg : Cfg) (alpha : ℚ) (h : List ℚ) : Bool := lastLe alpha (kaplanMarkov cfg h)
+
+/-- the reciprocal of the Kaplan-Markov factor: `(x + g)/(t + g)`, the betting factor on the shifted
+data `x + g` under the shifted hypothesis `t + g` with the bet `1/(t + g)` -/
+def kmQ (tg g : ℚ) (_m a _c : ℚ) : ℚ := (a + g) / tg
+
+theorem pinf_mul_pos {a : XR} (ha : Pos a) : (XR.pinf * a : XR) = XR.pinf := by
+  cases a with
+  | fin q =>
+    show XR.mul .pinf (.fin q) = .pinf
+    have hq : (0 : ℚ) < q := ha
+    simp [XR.mul, XR.infTimes, ne_of_gt hq, hq]
+  | pinf => rfl
+  | ninf => exact absurd ha id
+  | nan => exact absurd ha id
+
+theorem fin_pos_mul_pinf {P : ℚ} (hP : 0 < P) : (XR.fin P * XR.pinf : XR) = XR.pinf := by
+  show XR.mul (.fin P) .pinf = .pinf
+  simp [XR.mul, XR.infTimes, ne_of_gt hP, hP]
+
+/-- the running product of the model is `+inf` (some `x_i + g = 0`) or the reciprocal of the value -/
+theorem km_cumprod (cfg : Cfg) (x : List ℚ) (hx : ∀ a ∈ x, 0 ≤ a) (hg : 0 ≤ cfg.kw.g.getD 0)
+    (htg : 0 < cfg.t + cfg.kw.g.getD 0) (j : Nat) (hj : j < x.length) :
+    ∃ T, (kmTerms cfg x)[j]? = some T ∧
+      (T = .pinf ∨ ∃ P : ℚ, 0 < P ∧ T = .fin P ∧
+        P * prodTo (fun i => (Spec.obs x i + cfg.kw.g.getD 0) / (cfg.t + cfg.kw.g.getD 0)) (j + 1) = 1) := by
+  refine cumprodFrom_getElem?_indexed _
+    (fun k T => T = .pinf ∨ ∃ P : ℚ, 0 < P ∧ T = .fin P ∧
+      P * prodTo (fun i => (Spec.obs x i + cfg.kw.g.getD 0) / (cfg.t + cfg.kw.g.getD 0)) k = 1) 1
+    (Or.inr ⟨1, by norm_num, rfl, by simp [prodTo]⟩) ?_ j (by simpa using hj)
+  intro i T f hf hC
+  rw [List.getElem?_map] at hf
+  cases ha : x[i]? with
+  | none => rw [ha] at hf; cases hf
+  | some a =>
+    rw [ha] at hf
+    injection hf with hf
+    replace hf : (XR.fin (cfg.t + cfg.kw.g.getD 0) / XR.fin (a + cfg.kw.g.getD 0) : XR) = f := hf
+    have hag : 0 ≤ a + cfg.kw.g.getD 0 := add_nonneg (hx a (List.mem_of_getElem? ha)) hg
+    have hfpos : Pos f := by rw [← hf]; exact km_factor _ _ htg hag
+    rcases hC with rfl | ⟨P, hP, rfl, hPV⟩
+    · left; exact pinf_mul_pos hfpos
+    · by_cases h0 : a + cfg.kw.g.getD 0 = 0
+      · left
+        rw [← hf, h0]
+        have : (XR.fin (cfg.t + cfg.kw.g.getD 0) / XR.fin 0 : XR) = .pinf := by
+          show XR.div (.fin _) (.fin 0) = .pinf
+          simp [XR.div, ne_of_gt htg, htg]
+        rw [this]
+        exact fin_pos_mul_pinf hP
+      · right
+        have hapos : 0 < a + cfg.kw.g.getD 0 := lt_of_le_of_ne hag (Ne.symm h0)
+        refine ⟨P * ((cfg.t + cfg.kw.g.getD 0) / (a + cfg.kw.g.getD 0)), by positivity, ?_, ?_⟩
+        · rw [← hf, XR.fin_div _ _ h0, XR.fin_mul]
+        · rw [prodTo, obs_eq ha]
+          have htg' : cfg.t + cfg.kw.g.getD 0 ≠ 0 := ne_of_gt htg
+          calc P * ((cfg.t + cfg.kw.g.getD 0) / (a + cfg.kw.g.getD 0)) *
+                (prodTo (fun i => (Spec.obs x i + cfg.kw.g.getD 0) / (cfg.t + cfg.kw.g.getD 0)) i *
+                  ((a + cfg.kw.g.getD 0) / (cfg.t + cfg.kw.g.getD 0)))
+              = (P * prodTo (fun i => (Spec.obs x i + cfg.kw.g.getD 0) / (cfg.t + cfg.kw.g.getD 0)) i) *
+                  (((cfg.t + cfg.kw.g.getD 0) / (a + cfg.kw.g.getD 0)) *
+                    ((a + cfg.kw.g.getD 0) / (cfg.t + cfg.kw.g.getD 0))) := by ring
+            _ = 1 := by rw [hPV]; field_simp
+
+/-- **link between the literal model and the defining product** (no probability here) -/
+theorem km_reported_implies_value (cfg : Cfg) (hg : 0 ≤ cfg.kw.g.getD 0)
+    (htg : 0 < cfg.t + cfg.kw.g.getD 0) (x : List ℚ) (hx : ∀ a ∈ x, 0 ≤ a)
+    (alpha : ℚ) (ha0 : 0 < alpha) (ha1 : alpha < 1) (hev : reportedLastKM cfg alpha x = true) :
+    1 / alpha ≤ Tq (kmQ (cfg.t + cfg.kw.g.getD 0) (cfg.kw.g.getD 0)) none cfg.t (fun _ => 0) x := by
+  by_cases hne : x = []
+  · subst hne
+    unfold reportedLastKM at hev
+    rw [km_err_empty cfg] at hev
+    cases hev
+  · have hpos : 0 < x.length := List.length_pos_iff.mpr hne
+    have hj : x.length - 1 < x.length := by omega
+    have hlen : x.length = x.length - 1 + 1 := by omega
+    obtain ⟨T, hT, hC⟩ := km_cumprod cfg x hx hg htg (x.length - 1) hj
+    unfold reportedLastKM at hev
+    rw [km_eq cfg x hne hx] at hev
+    have hle := lastLe_ok_map alpha _ (kmTerms cfg x) (fun p => XR.npmin p (1 : XR)) (x.length - 1) T
+      (by rw [kmTerms_length]; exact hlen) hT hev
+    rw [Tq_eq_prodTo]
+    show 1 / alpha ≤ prodTo (fun i => (Spec.obs x i + cfg.kw.g.getD 0) / (cfg.t + cfg.kw.g.getD 0)) x.length
+    rcases hC with rfl | ⟨P, hP, rfl, hPV⟩
+    · exfalso
+      have : XR.npmin XR.pinf (1 : XR) = XR.fin 1 := by
+        simp [XR.npmin, XR.isNan, XR.lt]
+      rw [this] at hle
+      exact not_one_le_alpha ha1 hle
+    · simp only [XR.one_def, npmin_fin_fin, XR.le_fin, decide_eq_true_eq] at hle
+      have hPa : P ≤ alpha := by
+        rcases min_le_iff.1 hle with h | h
+        · exact h
+        · linarith
+      rw [← hlen] at hPV
+      have hV : prodTo (fun i => (Spec.obs x i + cfg.kw.g.getD 0) / (cfg.t + cfg.kw.g.getD 0)) x.length = 1 / P := by
+        field_simp
+        linarith
+      rw [hV]
+      exact one_div_le_one_div_of_le hP hPa
+
+/-- **C01, Kaplan-Markov, independent draws.**  For every finitely supported law `L` on `[0,u]` (any
+`u`) with mean at most `t`, `g ≥ 0`, `t + g > 0`, every horizon `n` and every `alpha` in `(0,1)`, the exact
+probability that the p-value reported by `kaplan_markov` after some number `≤ n` of independent draws
+from `L` is at most `alpha` is at most `alpha`. -/
+theorem C01_iid_km (cfg : Cfg) (hg : 0 ≤ cfg.kw.g.getD 0) (htg : 0 < cfg.t + cfg.kw.g.getD 0)
+    (alpha : ℚ) (ha0 : 0 < alpha) (ha1 : alpha < 1)
+    {u : ℚ} (L : List (ℚ × ℚ)) (hL : IsLaw u L) (hmean : lawMean L ≤ cfg.t) (n : Nat) :
+    hitIID L (reportedLastKM cfg alpha) n [] ≤ alpha := by
+  have h := process_ville_iid (kmQ (cfg.t + cfg.kw.g.getD 0) (cfg.kw.g.getD 0)) u cfg.t (fun _ => 0) L hL
+    (fun _ a' _ ha0' _ => div_nonneg (add_nonneg ha0' hg) htg.le)
+    (fun _ _ => by
+      have hfun : (fun v => kmQ (cfg.t + cfg.kw.g.getD 0) (cfg.kw.g.getD 0) cfg.t v 0) =
+          (fun v => 1 + (1 / (cfg.t + cfg.kw.g.getD 0)) * (v - cfg.t)) := by
+        funext v; unfold kmQ; field_simp; ring
+      rw [hfun, expL_affine L hL.w_sum]
+      have hl : 0 ≤ 1 / (cfg.t + cfg.kw.g.getD 0) := by positivity
+      unfold lawMean at hmean
+      nlinarith)
+    (reportedLastKM cfg alpha) (1 / alpha) (by positivity)
+    (fun h hr hev => km_reported_implies_value cfg hg htg h (fun a ha => (hr a ha).1) alpha ha0 ha1 hev) n
+  simpa using h
+
+-- non-vacuity: t = 1/2, g = 0 (zero observations make the product infinite), the law
+-- {0: 1/2, 1/2: 1/4, 1: 1/4} (mean 3/8), 5 draws
+example : hitIID [(0, 1/2), (1/2, 1/4), (1, 1/4)]
+    (reportedLastKM { N := none, u := 1, t := 1/2, randomOrder := true, kw := {} } (1/20))
+    5 [] ≤ 1/20 :=
+  C01_iid_km _ (by simp) (by simp) (1/20) (by norm_num) (by norm_num) (u := 1) _
+    ⟨by intro p hp; simp at hp; rcases hp with rfl | rfl | rfl <;> norm_num,
+     by norm_num,
+     by intro p hp; simp at hp; rcases hp with rfl | rfl | rfl <;> norm_num⟩
+    (by norm_num [lawMean, expL]) 5
+
 end Shangrla.C01
